@@ -142,7 +142,7 @@ func hostileManifest(r *simkit.RNG, strs []string) string {
 		}
 		regl = append(regl, map[string]interface{}{"source": pick(regs), "versions": vs})
 	}
-	if len(regl) > 0 && r.Chance(1, 3) {
+	if len(regl) > 0 && r.Chance(1, 2) {
 		// the same registry package twice: verbatim, or once with its default host spelled out
 		first := regl[0].(map[string]interface{})
 		second := map[string]interface{}{"source": first["source"], "versions": map[string]interface{}{"1.0.0": map[string]interface{}{"source": "git::https://example.com/x.git"}}}
